@@ -55,7 +55,8 @@ def check_table(ctx):
         ok_avg = ("len(%s)" % intervals) in k
         ctx.ob("C12.4", site, ok_avg, "on ordinary axes the scores of all intervals are averaged (sum / len(intervals))", loc=prog.loc(m, e["node"]),
                msg="the threshold average does not divide by len(intervals)")
-        per_interval = any(a.func == "setitem" for a in q.atoms(v)) and "getitem(%s,$i#" % intervals in k
+        per_interval = any(a.func == "setitem" for a in q.atoms(v)) and ("getitem(%s,$i#" % intervals in k or "elem#1(%s)" % intervals in k
+                                                                         or re.search(r"getitem\(%s,\$\w+#\d\)" % re.escape(intervals), k) is not None)
         ctx.ob("C12.1", site, per_interval, "on threshold-like axes row i holds the score of interval i", loc=prog.loc(m, e["node"]), msg="per-interval rows are not filled from intervals[i]")
     # return value: legend as column names, acc
     rets = [o for o in ev.outcomes if o.kind == "return"]
@@ -250,7 +251,9 @@ def check_writers(ctx):
         ctx.ob("C12.3", site, ok, "with -f the string that would be printed is written to that file (opened for writing), otherwise it is printed", loc=loc,
                msg="%s: file output and screen output no longer share one string / the file is not self.filename opened with 'w'" % name)
         nl = len(writes) == 2 and symeval._strval(writes[1]["args"][0]) == "\n"
-        ctx.ob("C12.3", site, nl and bool(closes), "the file gets the table and a final newline, then is closed", loc=loc, msg="%s: file writing changed" % name)
+        # closed explicitly, or opened in a `with` statement (closed on leaving it)
+        withs = [e for e in evw.events if e["kind"] == "with" and isinstance(e.get("value"), Rat) and e["value"].as_atom("call:open") is not None]
+        ctx.ob("C12.3", site, nl and (bool(closes) or bool(withs)), "the file gets the table and a final newline, then is closed", loc=loc, msg="%s: file writing changed" % name)
         gx = [e for e in trace.calls(evw) if e["name"] == "self._get_x_y" and len(e["args"]) == 2]
         ctx.ob("C12.1", site, bool(gx) and all(e["args"][0].key() == "$data" and e["args"][1].key() == "$self.axis" for e in gx),
                "%s() takes the table from _get_x_y(data, self.axis)" % name, loc=loc, msg="%s does not use _get_x_y(data, self.axis)" % name)
